@@ -110,7 +110,7 @@ func runP7Sym(sc M) {
 			if err := d.Unmarshal(src); err != nil {
 				return false, err
 			}
-			honest := buildSymBlob("data", "none", []symSigner{{Sid: str(sc, "cert"), SigKey: map[string]string{"A": "k1", "B": "k2", "At": "k2", "Ae": "k3", "Ac": "k3", "Ca": "k3", "E3": "ke3"}[str(sc, "cert")], SigOver: "attrs_as_encoded", Attrs: "present", CT: "data", MD: "m1", Order: "canonical"}}, "signer", false, dg)
+			honest := buildSymBlob("data", "none", []symSigner{{Sid: str(sc, "cert"), SigKey: map[string]string{"A": "k1", "B": "k2", "At": "k2", "Ae": "k3", "Ac": "k3", "Ca": "k3", "E3": "ke3", "S3": "k1", "S5": "k2"}[str(sc, "cert")], SigOver: "attrs_as_encoded", Attrs: "present", CT: "data", MD: "m1", Order: "canonical"}}, "signer", false, dg)
 			src.Reset()
 			src.Write(mk(honest))
 			return d.Verify(cert)
@@ -128,7 +128,7 @@ func runP7Sym(sc M) {
 				w.Write(sig)
 				return w.Bytes()
 			}
-			honest := buildSymBlob("data", "none", []symSigner{{Sid: str(sc, "cert"), SigKey: map[string]string{"A": "k1", "B": "k2", "At": "k2", "Ae": "k3", "Ac": "k3", "Ca": "k3", "E3": "ke3"}[str(sc, "cert")], SigOver: "attrs_as_encoded", Attrs: "present", CT: "data", MD: "m1", Order: "canonical"}}, "signer", false, dg)
+			honest := buildSymBlob("data", "none", []symSigner{{Sid: str(sc, "cert"), SigKey: map[string]string{"A": "k1", "B": "k2", "At": "k2", "Ae": "k3", "Ac": "k3", "Ca": "k3", "E3": "ke3", "S3": "k1", "S5": "k2"}[str(sc, "cert")], SigOver: "attrs_as_encoded", Attrs: "present", CT: "data", MD: "m1", Order: "canonical"}}, "signer", false, dg)
 			d := signature.NewEFIVariableAuthentication2()
 			if err := d.Unmarshal(bytes.NewBuffer(mk(honest))); err == nil {
 				d.Verify(cert)
